@@ -10,12 +10,14 @@ ASSUMPTIONS = [
     "A x* = b is solvable (b = A x*), P is positive semidefinite (<v,Pv> >= 0 at the vectors that occur)",
     "update() is called while not done(): rzold > 0 (tol >= 0)",
     "xp.vdot / xp.real(vdot) is the real inner product; xp.linalg.norm its norm (assumed numpy contract)",
-    "cited, not proved: for self-adjoint A the local relations L1-L4 with these alpha/beta imply global conjugacy, hence "
-    "Krylov optimality of the k-th iterate and termination within n updates (Hestenes-Stiefel)",
+    "global conjugacy is proved by induction over the real _update (G1/G2: step for an arbitrary earlier index j <= k-2, "
+    "L2/L3: j = k-1); the induction principle itself (for all k, by the base case job_init and this step) is trusted",
+    "cited, not proved: mutually conjugate directions spanning the Krylov space imply Krylov optimality of the k-th "
+    "iterate and termination within n updates (Hestenes-Stiefel)",
 ]
 TRUSTED = ["Gram-matrix abstraction of inner products (pyvc/gram.py)"]
 BOUNDS = {}
-NOT_DECIDED = ["Krylov optimality and n-step termination are cited consequences of the proved local invariants, not re-proved"]
+NOT_DECIDED = ["Krylov optimality and n-step termination are cited consequences of the proved (local and global) conjugacy invariants, not re-proved"]
 
 
 def functions():
@@ -112,6 +114,35 @@ def _generic_state(alg, with_P, last):
     return cg, dict(sp=sp, A=A, P=P, x0=x, x_old=x.copy(), xs=xs, b=b, r_old=r.copy(), p_old=p.copy(), rz_old=rz, it=it, mi=mi)
 
 
+def _global_conjugacy(sp, A, P, st, cg):
+    """Induction step of GLOBAL conjugacy (Hestenes-Stiefel), over the real update: ghost state = an arbitrary earlier
+    index j <= k-2 of the history, described by the relations the contract of _update establishes at every step
+    (z_j = P r_j, p_j = z_j + beta_{j-1} p_{j-1}, r_{j+1} = r_j - alpha_j A p_j, p_{j+1} = z_{j+1} + beta_j p_j; j = 0 is
+    beta_{j-1} = 0).  Induction hypothesis H(k): r_k is P-orthogonal to r_j, r_{j+1} and p_k is A-conjugate to
+    p_{j-1}, p_j, p_{j+1}.  Goals: the same for the r, p that the real _update leaves behind.  (The remaining index
+    j = k-1 is L2/L3 above.)  All scalars are symbolic; alpha_j != 0 because update() only runs while rz > 0."""
+    Pz = (lambda v: P(v)) if P else (lambda v: v)
+    rj, pjm = sp.base("rj"), sp.base("pjm")
+    aj, bjm, bj = Sym(z3.Real("alpha_j")), Sym(z3.Real("beta_jm1")), Sym(z3.Real("beta_j"))
+    zj = Pz(rj)
+    pj = zj + pjm * bjm
+    rj1 = rj - A(pj) * aj
+    zj1 = Pz(rj1)
+    pj1 = zj1 + pj * bj
+    r, p = st["r_old"], st["p_old"]
+    ih = [sp.ip(r, zj).t == 0, sp.ip(r, zj1).t == 0, sp.ip(p, A(pjm)).t == 0, sp.ip(p, A(pj)).t == 0,
+          sp.ip(p, A(pj1)).t == 0, aj.t != 0]
+    g1, g1b = sp.ip(cg.r, zj).t == 0, sp.ip(cg.r, zj1).t == 0
+    X = sp.ip(cg.p, A(pj))
+    return [("G1:<r_new,P r_j>==0-for-all-earlier-j", ih, g1),
+            ("G1:<r_new,P r_j+1>==0-for-all-earlier-j", ih, g1b),
+            ("G2a:alpha_j<p_new,A p_j>==<P r_new,r_j>-<P r_new,r_j+1>", ih,
+             (aj * X).t == sp.ip(Pz(cg.r), rj).t - sp.ip(Pz(cg.r), rj1).t + (aj * Sym(core._lift(cg.rzold)) / st["rz_old"] * sp.ip(p, A(pj))).t),
+            ("G2:<p_new,A p_j>==0-for-all-earlier-j", ih + [g1, g1b,
+             (aj * X).t == sp.ip(Pz(cg.r), rj).t - sp.ip(Pz(cg.r), rj1).t + (aj * Sym(core._lift(cg.rzold)) / st["rz_old"] * sp.ip(p, A(pj))).t],
+             X.t == 0)]
+
+
 def job_update(with_P, last, timeout_ms):
     rec = record(ALG, "ConjugateGradient._update")[0]
     alg = load_alg()
@@ -162,6 +193,7 @@ def job_update(with_P, last, timeout_ms):
                 ("L2:<p_new,A p_old>==0", [], sp.ip(cg.p, A(st["p_old"])).t == 0),
                 ("L3:<r_new,z_old>==0", [], sp.ip(cg.r, (P(st["r_old"]) if P else st["r_old"])).t == 0),
                 ("alias:r,p,x-distinct", [], z3.BoolVal(cg.r is not cg.p and cg.x is not cg.r and cg.x is not cg.p))]
+        obs += _global_conjugacy(sp, A, P, st, cg)
         return obs
     obs, covers = path_obligations("C12/CG._update/%s" % inst, results, post, instance=inst, fn_record=rec)
     # side obligation sqrt(rznew) >= 0 needs P psd at the new residual: supply it as a hypothesis instance
